@@ -698,6 +698,13 @@ func genSmall(emit func(string), r *hx.Rand, thorough bool) {
 	for _, s := range statusTexts {
 		emit(hx.L("status-dec", hx.S(s)))
 	}
+	// status-lines of the grammar whose code is outside the round-trip domain (000..099): the decoder
+	// may read them or refuse them, but not read anything else
+	for c := 0; c < 100; c++ {
+		for _, f := range []string{"HTTP/1.1 %03d x", "HTTP/1.0 %03d ", "HTTP/2.0 %03d a b  c"} {
+			emit(hx.L("status-dec", hx.S(fmt.Sprintf(f, c))))
+		}
+	}
 	n = 3000
 	if thorough {
 		n = 100000
